@@ -312,9 +312,13 @@ def expect_scenario(model, sc):
     try:
         for i, (f, ln, kind, slots, src) in enumerate(items):
             if kind == "title":
-                printed.append(b"title " + use(i, "t"))
+                t = use(i, "t")
+                if t.strip():           # a title / attention text that is empty after substitution is not printed (a71da88^: 3fb4b9d)
+                    printed.append(b"title " + t)
             elif kind == "attention":
-                printed.append(b"attention " + use(i, "t"))
+                t = use(i, "t")
+                if t.strip():
+                    printed.append(b"attention " + t)
             elif kind == "author":
                 printed.append(b"author " + slots["t"][1])
             elif kind == "role":
